@@ -83,6 +83,9 @@ func NewListener(cfg *service.Listener, stats *DownstreamStats, logger log.Logge
 }
 
 func (l *listener) Serve() error {
+	// Stop waits for done, whichever way Serve returns.
+	defer close(l.done)
+
 	ip := l.cfg.GetAddress().GetIp()
 	port := l.cfg.GetAddress().GetPort()
 	address := fmt.Sprintf("%s:%d", ip, port)
@@ -115,14 +118,28 @@ func (l *listener) Serve() error {
 		}
 	}
 
+	// Stop or Drain may have been called while the port was being bound,
+	// they could not close a listener they did not know about yet.
+	l.mu.Lock()
+	select {
+	case <-l.quit:
+		l.mu.Unlock()
+		ln.Close()
+		return nil
+	case <-l.drain:
+		l.mu.Unlock()
+		ln.Close()
+		return nil
+	default:
+	}
 	l.ln = ln
+	l.mu.Unlock()
 	l.Infof("start serving at %s", ln.Addr().String())
 	l.serve()
 	l.Infof("stop serving at %s, waiting all conns done", ln.Addr().String())
 
 	l.connsWg.Wait()
 	l.Infof("all conns done")
-	close(l.done)
 	return nil
 }
 
@@ -255,8 +272,11 @@ func (l *listener) Drain() error {
 	l.drainOnce.Do(func() {
 		close(l.drain)
 	})
-	if l.ln != nil {
-		l.ln.Close()
+	l.mu.Lock()
+	ln := l.ln
+	l.mu.Unlock()
+	if ln != nil {
+		ln.Close()
 	}
 	return nil
 }
@@ -275,10 +295,11 @@ func (l *listener) Stop() error {
 		l.stats.CxDestroyTotal.Inc()
 		l.stats.CxActive.Dec()
 	}
+	ln := l.ln
 	l.mu.Unlock()
 
-	if l.ln != nil {
-		l.ln.Close()
+	if ln != nil {
+		ln.Close()
 	}
 	for conn := range conns {
 		conn.Close()
